@@ -22,6 +22,26 @@ pristine content of every dict/list/set and *cache* attribute of all pony module
 provider, entity and attribute objects (snapshot_pristine) - a cache added later is reset without
 being named here; a statement that does not reproduce its cold reference after the restore is
 itself reported.
+
+Type-history part (the same call site / the same SQL text executed again with other Python types):
+items are (entry point, database, SQL text, value of $x, value of $y, result_type); ALL items of an
+entry point run through ONE call site (call_typed: the same code object), on an entity with one column
+per scalar type. Alphabet: $-values int(2 values) str Decimal date datetime float bool None bytes
+entity-instance (thorough: + second str, time, timedelta, UUID); result_type of raw_sql(sql,
+result_type) in {none int str Decimal float date bool} (thorough: + datetime bytes); SQL texts:
+comparisons of $x with 2 (thorough 8) typed columns, a two-parameter text (thorough, 6x6 / 4x4
+types), coalesce($x, column) and bare columns as raw_sql() expressions; entry points quick: raw_sql() in
+genif/where/genexpr/order_by queries, Database.select, select_by_sql on real SQLite + PostgreSQL;
+thorough: all 6 raw_sql() query forms, select/get/exists/execute, select_by_sql/get_by_sql on SQLite,
+SQLite-named, PostgreSQL, MySQL, Oracle. Enumerated: every ORDERED PAIR of items of the same database
+(thorough: + every ordered pair of a cross-database subset; + every ordered TRIPLE of the items of one
+call site = same entry point, database and SQL text, on SQLite and PostgreSQL). Oracle: what the last
+call sent to the driver (statement text, the values WITH their Python types), its exception class or
+its result (values with their types) must equal the same call executed cold; cold references are
+validated against pristine forks and two long histories as above. A failing pair is reduced by making
+the first call equal to the second component by component; the signature names the components that
+must differ (database / entry point / SQL text / $x type|value / $y / result_type) and whether the
+statement sent or only the outcome changes. Each process works on its own copy of the SQLite file.
 """
 import os, sys, json, itertools, sqlite3, atexit, shutil, uuid
 from decimal import Decimal
@@ -728,7 +748,7 @@ def typed_items(quick):
         if not quick: add('rawq.genif', d, T_COND[5:], TV_QUICK)
         if not quick: add('rawq.genif', d, (T_TWO,), TV_TWO, TV_TWO)
         for fm in ('where',) if quick else ('where', 'lamsel', 'filter'):
-            add('rawq.' + fm, d, T_COND[:1] if quick else T_COND[:2], V)
+            add('rawq.' + fm, d, T_COND[:1], V)
         add('rawq.genexpr', d, T_EXPR[:1] if quick else T_EXPR, V)
         add('rawq.genexpr', d, T_COL[:2] if quick else T_COL, ('None',), rts=R)
         add('rawq.genexpr', d, T_EXPR[:1], ('int', 'str'), rts=R[1:])
@@ -738,7 +758,7 @@ def typed_items(quick):
         if not quick:
             for m in ('get', 'exists', 'execute'): add('db.' + m, d, T_COND[:1], V)
             add('E.get_by_sql', d, T_COND[:1], V)
-            add('db.select', d, (T_TWO,), TV_TWO, TV_TWO)
+            add('db.select', d, (T_TWO,), TV_TWO[:4], TV_TWO[:4])
     return out
 
 def t_db(item): return item[0].partition(':')[2]
@@ -940,13 +960,13 @@ def run(ctx):
         jobs = [('sweep', j) for j in jobs] + [('pairs', c) for c in (firsts[i::64] for i in range(64)) if c]
         # ---- type histories: ordered pairs; thorough: all ordered triples within one call site
         tfirsts = ctx.shuffled(range(tn))
-        jobs += [('tpairs', c) for c in (tfirsts[i::96] for i in range(96)) if c]
+        jobs += [('tpairs', c) for c in (tfirsts[i::192] for i in range(192)) if c]
         if not ctx.quick:
             sites = {}
             for i, it in enumerate(TITEMS): sites.setdefault(t_site(it), []).append(i)
             for st, idxs in sorted(sites.items()):
-                if len(idxs) <= 16 and st[1] in (T_COND[0], T_EXPR[0], T_COL[0], T_EXPR[1]):
-                    jobs += [('ttriples', (idxs, p, 4)) for p in range(4)]
+                if len(idxs) <= 32 and st[1] in (T_COND[0], T_EXPR[0], T_COL[0], T_EXPR[1]) and st[0].partition(':')[2] in T_DBS_QUICK:
+                    jobs += [('ttriples', (idxs, p, 8)) for p in range(8)]
         before_sweep = set(ctx.found)
         for d2 in ctx.pmap(any_worker, ctx.shuffled(jobs)):
             for d in d2: core.absorb(ctx, d)
@@ -989,6 +1009,7 @@ def run(ctx):
     ctx.assume('reference substituter _c30_lib.ref_substitute encodes the documentation of $-parameters; strings whose extent the documentation leaves open (whitespace before a trailer) and malformed strings are counted, not judged')
     ctx.assume('format/pyformat drivers %-interpolate whenever an argument object is passed (DM driver model, vf.engines.dm.bind_placeholders); numeric/named/qmark binding is modelled quote-unaware except on the real SQLite engine')
     ctx.assume('fork costs 20 ms here and does not parallelise, so only the core items, two long histories over all items and every reported signature use pristine forked processes; the other cold references and the separation of the ordered pairs restore the pristine content of every dict/list/set and *cache* attribute of all pony modules, Database, provider, entity and attribute objects (a cache added later is covered unless it lives in a closure)')
+    ctx.assume('type-history part: the entity instance used as a $-value is obtained with Entity._get_by_raw_pkval_((2,)) inside the db_session (no query), so that it exists on the capture databases too')
     ctx.cov['history_items'] = n
     ctx.cov['type_history_items'] = tn
     ctx.cov['type_history'] = dict(values=list(TV_QUICK if ctx.quick else TV_ALL), result_types=list(RT_QUICK if ctx.quick else RT_ALL),
